@@ -224,7 +224,7 @@ impl InternalObserver {
 //@ as: fn disallow_future_use(&mut self, state: &mut State)
 //@ cells: state, on_update_handlers
 //@ cells@state: num_active_observers, disallowed_observers
-//@ props: C10 C05
+//@ props: C10 C05 C07
 //@ contract:
 //@|     requires old(self).alive() ==> old(state).num_active_observers >= 1,
 //@|     ensures
@@ -440,6 +440,13 @@ pub fn vx_forbidden() requires false { }
 pub struct SharedObserver { pub state: Cell<ObserverState>, pub _opaque: OnUpdateHandler }
 pub uninterp spec fn shared_state_alive(o: &SharedObserver) -> bool;
 pub assume_specification<T>[ Cell::<T>::set ](c: &Cell<T>, v: T);
+// an Option filtered by an (unannotated) closure is either dropped or unchanged
+pub assume_specification<T, P: FnOnce(&T) -> bool>[ Option::<T>::filter ](o: Option<T>, predicate: P) -> (r: Option<T>)
+    ensures r is Some ==> r == o;
+impl State {
+    #[verifier::external_body]
+    pub fn is_stabilising(&self) -> bool { unimplemented!() }
+}
 impl SharedObserver {
     #[verifier::external_body]
     pub fn disallow_future_use(&self, state: &State) { unimplemented!() }
@@ -462,7 +469,7 @@ impl Observer {
 //@ as: fn disallow_future_use(&self)
 //@ panics: diverge
 //@ rule R8: `self.internal.disallow_future_use(&state);` => `vx_diverge();` x1
-//@ props: C10 C05
+//@ props: C10 C05 C07
 //@ contract:
 //@|     requires shared_state_alive(&*self.internal),
 //@|     ensures false, // [explicit-disallow-always-reaches-the-shared-observer-whatever-its-lifecycle-state]
@@ -475,7 +482,7 @@ impl Observer {
 //@ as: fn drop__other_clones_alive(&mut self)
 //@ rule R8: `self.internal.disallow_future_use(&state);` => `vx_forbidden();` x*
 //@ rule R8 re: `self\.internal\s*\.state\s*\.set\(ObserverState::Disallowed\);` => `vx_forbidden();` x*
-//@ props: C10 C05
+//@ props: C10 C05 C07
 //@ contract:
 //@|     requires rc_count(&old(self).sentinel) >= 2,       // another clone of this observer handle is alive
 //@|     // [dropping-a-clone-that-is-not-the-last-touches-nothing]: every transition is replaced by a call that
@@ -490,7 +497,7 @@ impl Observer {
 //@ panics: diverge
 //@ rule R8: `self.internal.disallow_future_use(&state);` => `vx_diverge();` x*
 //@ rule R8 re: `self\.internal\s*\.state\s*\.set\(ObserverState::Disallowed\);` => `vx_forbidden();` x*
-//@ props: C10 C05
+//@ props: C10 C05 C07
 //@ contract:
 //@|     requires rc_count(&old(self).sentinel) <= 1, shared_state_alive(&*old(self).internal),
 //@|     ensures false, // [dropping-the-last-clone-always-reaches-disallow_future_use]  (the call is replaced by a diverging one)
